@@ -17,6 +17,8 @@ ANALYSIS-ERROR -- normalisation never guesses):
                            can reach, one append site outside loops, the read later in the append's own block)
   I. ``read_properties``    ``@property def p(self): return E`` .. ``self.p`` in a method of the class  ->  .. ``E``  (a read-only property
                            that no other module of the tree mentions: a derived value is read through its return expression)
+  J. ``materialize_imports``  ``from ._priv import f as _f``  ->  ``def _f(..): <body of f>`` (+ the imports the body reads), for a
+                           self-contained function of a private module of the tree; the private helper is then inlined like a local one
 """
 import ast
 import copy
@@ -1296,4 +1298,121 @@ def read_properties(tree, anchors, foreign):
                         parent[id(c)] = x
                 parent[id(new)] = p
                 done += 1
+    return done
+
+
+# ------------------------------------------------------------------------------------------------ J. helpers of a private module
+def _abs_import(modname, is_pkg, node):
+    if node.level == 0:
+        return node.module
+    base = modname.split('.') if is_pkg else modname.split('.')[:-1]
+    if node.level > 1:
+        if node.level - 1 > len(base):
+            return None
+        base = base[:len(base) - (node.level - 1)]
+    if node.module:
+        base = base + node.module.split('.')
+    return '.'.join(base)
+
+
+def _import_binding(tree, modname, is_pkg, name):
+    """What the *top-level* import statement binding ``name`` in the module binds it to: ('mod', 'a.b') / ('from', 'a.b', 'c'); None when
+    the name is not bound by a plain top-level import."""
+    for st in tree.body:
+        if isinstance(st, ast.Import):
+            for al in st.names:
+                if al.asname == name or (al.asname is None and al.name == name):
+                    return ('mod', al.name), st, al
+        elif isinstance(st, ast.ImportFrom):
+            for al in st.names:
+                if al.name != '*' and (al.asname or al.name) == name:
+                    src = _abs_import(modname, is_pkg, st)
+                    if src is None:
+                        return None
+                    return ('from', src, al.name), st, al
+    return None
+
+
+def materialize_imports(tree, modname, is_pkg, load_tree, anchors):
+    """``from ._priv import f as _f``  ->  a copy of ``def f`` under the name ``_f`` in place of the import.
+
+    ``_priv`` is a private module (leading underscore) of the analysed tree, ``f`` is bound once there, by an undecorated top-level
+    ``def`` that passes the inliner's eligibility test and whose defaults are constants; the local name is private and bound once here
+    (the import).  The body must be self-contained: every name it reads that is not its own local is either bound once in ``_priv`` by
+    a plain top-level import -- then this module binds it to the same thing (once, by a top-level import) or not at all, in which case
+    the import is added here -- or bound in neither module (a builtin).  A function and its copy then compute the same thing from the
+    same arguments; which module's globals they read makes no difference.  Names the rules mention (anchors) are left alone.  Returns
+    the number of definitions copied."""
+    from .normalize import _eligible_def
+    if load_tree is None:
+        return 0
+    binds = _module_bindings(tree)
+    done = 0
+    for st in list(tree.body):
+        if not isinstance(st, ast.ImportFrom):
+            continue
+        src_name = _abs_import(modname, is_pkg, st)
+        leaf = (src_name or '').rpartition('.')[2]
+        if not leaf.startswith('_') or leaf.startswith('__') or src_name == modname:
+            continue
+        got = load_tree(src_name)
+        if got is None:
+            continue
+        src, src_pkg = got
+        sb = _module_bindings(src)
+        for al in list(st.names):
+            local = al.asname or al.name
+            if al.name == '*' or not local.startswith('_') or local.startswith('__') or local in anchors or al.name in anchors:
+                continue
+            if binds.get(local) != 1 or sb.get(al.name) != 1:
+                continue
+            fn = next((x for x in src.body if isinstance(x, ast.FunctionDef) and x.name == al.name), None)
+            if fn is None or fn.decorator_list or _eligible_def(fn, any_name=True) != 'func':
+                continue
+            a = fn.args
+            if not all(isinstance(d, ast.Constant) for d in list(a.defaults) + [d for d in a.kw_defaults if d is not None]):
+                continue
+            own = set(x.arg for x in ast.walk(fn) if isinstance(x, ast.arg)) | \
+                set(x.id for x in ast.walk(fn) if isinstance(x, ast.Name) and not isinstance(x.ctx, ast.Load)) | \
+                set(x.name for x in ast.walk(fn) if isinstance(x, ast.ExceptHandler) and x.name)
+            free = set(x.id for x in ast.walk(fn) if isinstance(x, ast.Name) and isinstance(x.ctx, ast.Load)) - own
+            need, ok = [], True
+            for g in sorted(free):
+                if not sb.get(g):
+                    if binds.get(g):
+                        ok = False          # a builtin there, something else here
+                    continue
+                there = _import_binding(src, src_name, src_pkg, g) if sb.get(g) == 1 else None
+                if there is None:
+                    ok = False
+                    break
+                if not binds.get(g):
+                    need.append((g, there[0]))
+                    continue
+                here = _import_binding(tree, modname, is_pkg, g) if binds.get(g) == 1 else None
+                if here is None or here[0] != there[0]:
+                    ok = False
+                    break
+            if not ok:
+                continue
+            new = []
+            for g, what in need:
+                if what[0] == 'mod':
+                    imp = ast.Import(names=[ast.alias(name=what[1], asname=g if g != what[1] else None)])
+                else:
+                    imp = ast.ImportFrom(module=what[1], names=[ast.alias(name=what[2], asname=g if g != what[2] else None)], level=0)
+                ast.copy_location(imp, st)
+                for x in ast.walk(imp):
+                    ast.copy_location(x, st)
+                new.append(imp)
+                binds[g] = 1
+            d = copy.deepcopy(fn)
+            d.name = local
+            new.append(d)
+            i = tree.body.index(st)
+            tree.body[i + 1:i + 1] = new
+            st.names.remove(al)
+            done += 1
+        if not st.names:
+            tree.body.remove(st)
     return done
